@@ -7,6 +7,7 @@ export GOFLAGS=-mod=mod GOPROXY=off GOSUMDB=off GOTOOLCHAIN=local
 wt="$1"; m="$2"; props="$3"; tier="${4:-quick}"
 diff="$wt/out/$m.diff"; demo="$wt/out/${m}_demo_test.go"
 [ -f "$diff" ] || { echo "no $diff"; exit 2; }
+tests=$(grep -oE '^func (Test[A-Za-z0-9_]+)' "$demo" | awk '{print $2}' | paste -sd'|'); [ -z "$tests" ] && tests=Demo
 pkgdir="pkg/controller/statefulset"
 grep -q '^package helper' "$demo" && pkgdir="client/apis/apps/v1/helper"
 grep -q '^package v1' "$demo" && pkgdir="client/apis/apps/v1"
@@ -15,9 +16,9 @@ mod="$wt"; rel="./$pkgdir/"
 case "$pkgdir" in client/*) mod="$wt/client"; rel="./${pkgdir#client/}/";; esac
 git -C "$wt" checkout -q -- . ; rm -f "$wt/$pkgdir"/zz_seeded_demo_test.go
 cp "$demo" "$wt/$pkgdir/zz_seeded_demo_test.go"
-(cd "$mod" && go test -vet=off -count=1 -run 'Demo' "$rel" >/tmp/tm_clean.log 2>&1); clean=$?
+(cd "$mod" && go test -vet=off -count=1 -run "^($tests)\$" "$rel" >/tmp/tm_clean.log 2>&1); clean=$?
 git -C "$wt" apply "$diff" || { echo "VERIFY: diff does not apply in worktree"; exit 2; }
-(cd "$mod" && go test -vet=off -count=1 -run 'Demo' "$rel" >/tmp/tm_mut.log 2>&1); mut=$?
+(cd "$mod" && go test -vet=off -count=1 -run "^($tests)\$" "$rel" >/tmp/tm_mut.log 2>&1); mut=$?
 rm -f "$wt/$pkgdir"/zz_seeded_demo_test.go
 (cd "$wt" && go build ./pkg/... ./cmd/... && go test -vet=off -count=1 ./pkg/... ./cmd/... >/tmp/tm_suite.log 2>&1); s1=$?
 (cd "$wt/client" && go build ./... && go test -vet=off -count=1 ./... >>/tmp/tm_suite.log 2>&1); s2=$?
